@@ -594,7 +594,8 @@ def draw_config(ch, rng, nmodes, cfgname, domain_hint, allow_srs):
         cs.rows = {"A": base_rows, "AD": base_rows, "AD2": 2 * base_rows, "AF": base_rows, "view_n": nmodes, "view_2": 2}[needs]
         cs.expr = expr.format(c=cs.name)
         cs.view = needs.startswith("view")
-        cs.uf = draw_uf(ch, "cat_uf")
+        cs.uf_def = draw_uf(ch, "cat_uf")  # as given to DR_Def.add
+        cs.uf = cs.uf_def  # effective (after DR_Event.add's override), set below
         cs.labels = [f"{cs.name} r{i}" for i in range(cs.rows)]
         cs.histpv, cs.hist_idx = (None, None)
         if ch.flip(1, 2, "histpv_on"):
@@ -608,14 +609,58 @@ def draw_config(ch, rng, nmodes, cfgname, domain_hint, allow_srs):
             cs.srsopts = [{}, {"eqsine": True}, {"ic": "steady"}, {"eqsine": True, "ic": "steady"}, None][ch.draw(5, "srsopts")]
             cs.nfrq = 2 + ch.draw(3, "nsrsfrq")
         cats.append(cs)
+    # DR_Event.add: the categories arrive in one or two DR_Def groups, each group
+    # optionally with an event-level uf_reds override (replace / multiply / callable)
+    ngroups = 2 if (ncat >= 2 and ch.flip(1, 3, "two_drdefs")) else 1
+    cutg = 1 + ch.draw(ncat - 1, "drdef_cut") if ngroups == 2 else ncat
+    for gi, grp in enumerate((cats[:cutg], cats[cutg:])):
+        if not grp:
+            continue
+        ov = None
+        meth = "replace"
+        if ch.flip(1, 3, "uf_override"):
+            ov = tuple([None, 1.1, 0.0, 2.0][ch.weighted([3, 2, 1, 1], "uf_override_val")] for _ in range(4))
+            if all(v is None for v in ov):
+                ov = (None, None, 1.2, None)
+            meth = ["replace", "multiply", "add"][ch.draw(3, "uf_method")]
+        for cs in grp:
+            cs.group = gi
+            cs.uf_override = ov
+            cs.uf_method = meth
+            if ov is not None:
+                f = {"replace": lambda o, n: n, "multiply": lambda o, n: o * n, "add": lambda o, n: o + n}[meth]
+                cs.uf = tuple(o if n is None else f(o, n) for o, n in zip(cs.uf_def, ov))
     return cats
+
+
+def _uf_add(old, new):
+    return old + new
 
 
 def build_DR(M, cats, cfgname, srsfrq):
     cla = M.cla
+    DR = cla.DR_Event()
+    for gi in sorted({cs.group for cs in cats}):
+        grp = [cs for cs in cats if cs.group == gi]
+        drdefs = _build_drdef(cla, grp, cfgname, srsfrq)
+        ov, meth = grp[0].uf_override, grp[0].uf_method
+        if ov is None:
+            DR.add(None, drdefs)
+        else:
+            DR.add(None, drdefs, uf_reds=ov, method=_uf_add if meth == "add" else meth)
+    # the event must know every distinct factor tuple
+    for cs in cats:
+        if tuple(DR.Info[cs.name].uf_reds) != tuple(cs.uf):
+            raise Violation("uf_reds_merge_wrong", "DR_Event.add", category=cs.name, got=list(DR.Info[cs.name].uf_reds), expected=list(cs.uf), override=repr(cs.uf_override), method=cs.uf_method)
+        if tuple(cs.uf) not in [tuple(u) for u in DR.UF_reds]:
+            raise Violation("uf_reds_not_collected", "DR_Event.add", category=cs.name)
+    return DR
+
+
+def _build_drdef(cla, cats, cfgname, srsfrq):
     drdefs = cla.DR_Def({"se": 0})
     for cs in cats:
-        kw = dict(name=cs.name, labels=list(cs.labels), drfunc=cs.expr, uf_reds=cs.uf, desc=f"{cs.name} of {cfgname}")
+        kw = dict(name=cs.name, labels=list(cs.labels), drfunc=cs.expr, uf_reds=cs.uf_def, desc=f"{cs.name} of {cfgname}")
         drms = {cs.name + k: v for k, v in cs.V.items()}
         # data recovery matrices: alternately through drms and nondrms (equivalent for se 0)
         if drms:
@@ -631,9 +676,7 @@ def build_DR(M, cats, cfgname, srsfrq):
             if cs.srsopts is not None:
                 kw["srsopts"] = dict(cs.srsopts)
         drdefs.add(**kw)
-    DR = cla.DR_Event()
-    DR.add(None, drdefs)
-    return DR
+    return drdefs
 
 
 class Event:
